@@ -54,6 +54,12 @@ def check(prog, rep, tier):
                       'send methods; on every path all writes go to the transport of the protocol the FSM tracks')
     rep.rule('R12.e', 'a late connectionLost of an earlier, already closed connection does not touch the tracked '
                       'connection: fsm.protocol / estab_protocol and the state are unchanged')
+    rep.rule('R12.i', 'after our own close the restart is pushed back by a full idle-hold period: connectionLost re-arms the '
+                      'idle-hold timer on every path where automatic start is allowed (rule shared with C02 R02.c)')
+    rep.rule('R12.j', 'an automatic restart cannot begin while a connect attempt may still be pending: the shipped default of '
+                      'idle_hold_time is not below the timeout of the connectTCP call (the mechanism never aborts a '
+                      'pending attempt, known findings R12.a/R12.b, so only the ordering of these two numbers keeps a '
+                      'stray return to Idle harmless)')
     rep.rule('R12.h', 'a connection that comes up is adopted or closed: no TCP-established path ends in Idle with the '
                       'new connection left open')
     rep.rule('R12.g', 'an attempt is recorded: every path that starts a TCP connect leaves the state machine in '
@@ -158,6 +164,9 @@ def check(prog, rep, tier):
 
     # ---------------------------------------------------------------- R12.e
     stale_lost_rule(tab, rep, 'R12.e')
+    from .c02 import closed_rearms_rule
+    closed_rearms_rule(tab, rep, 'R12.i')
+    idle_hold_vs_connect_timeout(prog, rep)
     # ---------------------------------------------------------------- R12.f
     seen = {}
     for (ev, state), rows in sorted(tab.rows.items()):
@@ -263,3 +272,35 @@ def check(prog, rep, tier):
                         rep.bad('R12.d', name, file='yabgp/core/protocol.py', line=a.line, func=a.func,
                                 found='message written to %s while the FSM tracks %s' % (a.target, cval(tr)),
                                 expected='sends go to the tracked connection', key=name, path=r.describe())
+
+
+
+def idle_hold_vs_connect_timeout(prog, rep):
+    cm = prog.modules['yabgp.config']
+    default = None
+    line = None
+    for n in ast.walk(cm.tree):
+        if isinstance(n, ast.Call) and src_of(n.func).endswith('IntOpt') and n.args and \
+                isinstance(n.args[0], ast.Constant) and n.args[0].value == 'idle_hold_time':
+            for k in n.keywords:
+                if k.arg == 'default':
+                    default = prog.try_fold(k.value, cm)
+                    line = n.lineno
+    timeout = None
+    cf = prog.func('yabgp.core.factory.BGPPeering.connect')
+    for n in ast.walk(cf.node):
+        if isinstance(n, ast.Call) and src_of(n.func).endswith('connectTCP'):
+            timeout = 30            # Twisted's default
+            for k in n.keywords:
+                if k.arg == 'timeout':
+                    timeout = prog.try_fold(k.value, cf.module, cf.cls)
+    key = 'idle-hold>=connect-timeout'
+    if not isinstance(default, (int, float)) or not isinstance(timeout, (int, float)):
+        rep.undecided('R12.j', key, found='idle_hold_time default %r, connect timeout %r' % (default, timeout))
+    elif default < timeout:
+        rep.bad('R12.j', key, file=cm.relpath, line=line,
+                found='idle_hold_time defaults to %s s, the TCP connect timeout is %s s: a return to Idle while an attempt '
+                      'is pending (stale hold timer, late close) starts the next attempt on top of it' % (default, timeout),
+                expected='idle hold >= connect timeout', key=key)
+    else:
+        rep.ok('R12.j', key, file=cm.relpath, line=line, found='idle hold %s s >= connect timeout %s s' % (default, timeout))
